@@ -147,25 +147,37 @@ def has_files(root, suffix=None, sub=None):
     return False
 
 
-def probe(env, ename, cname, layout):
-    """behaviour of cluster cname in environment env"""
+def snapshot(layout_c):
+    """all files under the directories the definitions of one cluster name may refer to"""
+    out = set()
+    for ri, paths in layout_c.items():
+        for pid, p in paths.items():
+            for dp, dn, fn in os.walk(p):
+                for f in fn:
+                    out.add((ri, pid, os.path.join(dp, f)))
+    return out
+
+
+def probe(env, ename, cname, layout, arg=1, destructive=True, order=None):
+    """behaviour of cluster cname in environment env (order: original repository indices in current priority order)"""
     Environment.set(env)
     fn = verif_conf.FNS[cname]
     b = {"runs": False, "stores": False, "datafiles": False, "metasep": False, "cached": False, "rejects": False}
-    ev = {"op": "Probe", "cluster": cname, "how": ename, "found": True, "repo": 0, "b": b, "exc": ""}
+    ev = {"op": "Probe", "cluster": cname, "how": ename, "found": True, "repo": 0, "dpid": 0, "mpid": 0, "b": b, "exc": ""}
     cluster = env.get_cluster(cname)
     if cluster is None:
         ev["found"] = False
         try:
-            fn(1)
+            fn(arg)
             ev["exc"] = "call of a function of an undefined cluster did not fail"
         except ValueError:
             pass
         return ev
     try:
+        before = snapshot(layout.get(cname, {}))
         verif_side.log.reset()
         try:
-            fn(1)
+            fn(arg)
             b["runs"] = bool(verif_side.log.take())
         except RuntimeError as e:
             if "Null runner" not in str(e):
@@ -173,34 +185,73 @@ def probe(env, ename, cname, layout):
             b["runs"] = False
         if b["runs"]:
             verif_side.log.reset()
-            fn(1)
+            fn(arg)
             b["stores"] = not verif_side.log.take()
         # where did the data go?
-        for ri, paths in layout.get(cname, {}).items():
-            for pid, p in paths.items():
-                if has_files(p):
-                    ev["repo"] = int(ri)
+        new = snapshot(layout.get(cname, {})) - before
+        for ri, pid, path in sorted(new):
+            pos = (order.index(int(ri)) + 1) if order else int(ri)
+            ev["repo"] = pos
+            if (os.sep + "c" + os.sep) in path and ".memento.json" not in path:
+                ev["dpid"] = int(pid)
+            if ".memento.json" in path:
+                ev["mpid"] = int(pid)
         st = cluster.storage
         data_path = getattr(st, "config_path", None)
         meta_path = getattr(st, "metadata_config_path", None)
-        b["datafiles"] = has_files(data_path, sub="c")
-        if meta_path and data_path and meta_path != data_path:
-            b["metasep"] = has_files(meta_path, ".memento.json") and not has_files(data_path, ".memento.json")
+        b["datafiles"] = any((os.sep + "c" + os.sep) in path for _, _, path in new)
+        b["metasep"] = ev["mpid"] != 0 and ev["dpid"] != 0 and ev["mpid"] != ev["dpid"] and \
+            not any(".memento.json" in path and int(pid) == ev["dpid"] for _, pid, path in new)
         try:
             fn.forget(999)
         except ValueError:
             b["rejects"] = True
         # memory cache: wipe the files, the result must still be served
-        if b["stores"] and data_path and os.path.isdir(data_path):
+        if destructive and b["stores"] and data_path and os.path.isdir(data_path):
             for pth in {data_path, meta_path}:
                 if pth and os.path.isdir(pth):
                     shutil.rmtree(pth)
             verif_side.log.reset()
-            fn(1)
+            fn(arg)
             b["cached"] = not verif_side.log.take()
+        ev["destructive"] = bool(destructive)
     except Exception as e:
         ev["exc"] = "%s: %s" % (type(e).__name__, str(e)[:160])
     return ev
+
+
+def run_mutations(job, base, layout):
+    """the environment is built from some repositories, looked up, and then extended by append_repo /
+    prepend_repo, with look-ups after every step"""
+    env_spec, plan = job["env"], job["plan"]
+
+    def repo_obj(ri):
+        clusters = {}
+        for c in env_spec[ri - 1]:
+            d = dirs(base, ri, c["name"])
+            rt = val(c["args"], "rtype") or val(c["opts"], "rtype")
+            runner = RunnerBackend.create(rt, {}) if rt else None
+            clusters[c["name"]] = FunctionCluster(name=c["name"], storage=make_storage(c["opts"], c["args"], d), runner=runner)
+        return ConfigurationRepository(name="r%d" % ri, clusters=clusters)
+
+    order = list(plan["init"])
+    env = Environment(name="e", base_dir=base, repos=[repo_obj(ri) for ri in order])
+    events, rnd = [], 1
+    nops = len(plan["ops"])
+    for i in range(nops + 1):
+        for cname in verif_conf.FNS:
+            events.append(probe(env, "mutate", cname, layout, arg=rnd, destructive=False, order=order))
+        rnd += 1
+        if i < nops:
+            where, ri = plan["ops"][i]
+            if where == "append":
+                env.append_repo(repo_obj(ri))
+                order.append(ri)
+            else:
+                env.prepend_repo(repo_obj(ri))
+                order.insert(0, ri)
+            events.append({"op": "Repo", "where": where, "repo": env_spec[ri - 1]})
+    return events
 
 
 def run_job(job):
@@ -215,6 +266,9 @@ def run_job(job):
                 layout.setdefault(c["name"], {})[str(ri)] = {str(p): d(p) for p in (1, 2, 3)}
         how = job["how"]
         events = []
+        if how == "mutate":
+            return {"env": [env_spec[ri - 1] for ri in job["plan"]["init"]], "how": how, "plan": job["plan"],
+                    "ev": run_mutations(job, base, layout)}
         if how == "dump":
             e0 = build_env(env_spec, "ctor", base)
             dumped = e0.to_dict()
@@ -225,7 +279,7 @@ def run_job(job):
             events.append(probe(env, how, cname, layout))
         return {"env": env_spec, "how": how, "ev": events}
     except Exception as e:
-        return {"env": job["env"], "how": job["how"], "ev": [{"op": "Probe", "cluster": "ka", "how": job["how"], "found": True, "repo": 0,
+        return {"env": job["env"], "how": job["how"], "ev": [{"op": "Probe", "cluster": "ka", "how": job["how"], "found": True, "repo": 0, "dpid": 0, "mpid": 0,
                 "b": {"runs": False, "stores": False, "datafiles": False, "metasep": False, "cached": False, "rejects": False},
                 "exc": "build: %s: %s" % (type(e).__name__, str(e)[:200])}]}
     finally:
